@@ -104,8 +104,9 @@ def main():
     ran.append("git -C /repo apply patch.diff; ./check %s --tier %s --seed %s (rc=%d, %.0fs); git -C /repo checkout -- ." % (prop, tier, seed, rc, time.time() - t0))
     dst = os.path.join(VERIF, "seeded", sid)
     os.makedirs(dst, exist_ok=True)
-    shutil.copy(patch, os.path.join(dst, "patch.diff"))
-    if os.path.isdir(os.path.join(d, "demo")):
+    if os.path.abspath(d) != os.path.abspath(dst):
+        shutil.copy(patch, os.path.join(dst, "patch.diff"))
+    if os.path.abspath(d) != os.path.abspath(dst) and os.path.isdir(os.path.join(d, "demo")):
         shutil.rmtree(os.path.join(dst, "demo"), ignore_errors=True)
         shutil.copytree(os.path.join(d, "demo"), os.path.join(dst, "demo"))
     prev = {}
